@@ -122,8 +122,7 @@ def fresh_check(T, item, tmp, interner, workdir):
             vfresh = e["v"]
             break
     if vfresh is None:
-        T.emit({"e": "FreshCheck", "ok": False, "vfix": [], "vfresh": [], "onlyFix": [], "onlyFresh": []})
-        return
+        return      # the written text is rejected on re-read: that is C08_Accepted's finding (Reparse event), there is no second report to compare
 
     def key(v):
         return [interner.s(v["rule"]), int(v["line"]), interner.s(v["sol"])]
